@@ -305,7 +305,12 @@ macro_rules! send_data {
 
             if $segment_iter_item.seq_nr() > $self.last_sent_seq_nr {
                 $self.last_sent_seq_nr = $segment_iter_item.seq_nr();
-                $self.seq_nr = $segment_iter_item.seq_nr() + 1;
+                // seq_nr only moves forward. After an RTO rewound last_sent_seq_nr this is a
+                // retransmission: the higher numbers are already in use and must not be
+                // handed out again (a later FIN would reuse the number of a data segment).
+                if $self.seq_nr < $segment_iter_item.seq_nr() + 1 {
+                    $self.seq_nr = $segment_iter_item.seq_nr() + 1;
+                }
             }
 
             // rfc6298 5.1
